@@ -517,18 +517,40 @@ impl BState {
             }
             return;
         };
-        // C12: the interval must be centred on a realtime reading taken *before* the monotonic one
+        // C12: the interval must be centred on a realtime reading that was followed by the
+        // monotonic reading its half-width is computed from (a call may read the pair again,
+        // e.g. to retry; what counts is the pair that produced the answer)
         let mut rt = rt;
+        let mut mono = mono;
         if let CallResult::Ok { earliest, latest, .. } = &res {
             if (earliest + latest) % 2 == 0 {
                 let centre = (earliest + latest) / 2;
-                let mi = obs.reads.iter().position(|x| x.0 == mono.0).unwrap_or(0);
-                if rt.1 != centre {
-                    if let Some((pos, r)) = obs.reads.iter().enumerate().find(|(_, x)| x.0 == libc::CLOCK_REALTIME as u64 && x.1 == centre) {
-                        if pos > mi {
-                            self.out.violate(&["C12"], "interval_centred_on_later_realtime_read", "order".into(), format!("the interval is centred on a realtime reading taken at {} ns, after the monotonic reading taken at {} ns", r.2, mono.2));
+                let is_rt = |x: &(u64, i128, i64, i64)| x.0 == libc::CLOCK_REALTIME as u64 && x.1 == centre;
+                let is_mono = |x: &(u64, i128, i64, i64)| x.0 == libc::CLOCK_MONOTONIC_COARSE as u64;
+                let mut pair = None;
+                for (pos, r) in obs.reads.iter().enumerate() {
+                    if is_rt(r) {
+                        if let Some(m) = obs.reads[pos + 1..].iter().find(|x| is_mono(x)) {
+                            pair = Some((*r, *m));
+                            break;
                         }
-                        rt = *r;
+                    }
+                }
+                match pair {
+                    Some((r, m)) => {
+                        if r.2 != rt.2 {
+                            self.out.probe("probe.answer_from_a_later_pair_of_clock_reads");
+                        }
+                        rt = r;
+                        mono = m;
+                    }
+                    None => {
+                        if let Some(r) = obs.reads.iter().rev().find(|x| is_rt(x)) {
+                            let m = obs.reads.iter().rev().find(|x| is_mono(x)).copied().unwrap_or(mono);
+                            self.out.violate(&["C12"], "interval_centred_on_later_realtime_read", "order".into(), format!("the interval is centred on a realtime reading taken at {} ns, after the last monotonic reading (taken at {} ns)", r.2, m.2));
+                            rt = *r;
+                            mono = m;
+                        }
                     }
                 }
             }
@@ -606,7 +628,8 @@ impl BState {
             // growth: the half-width never shrinks as the same record gets older
             let half = (latest - earliest) / 2;
             if let Some((r0, m0, h0)) = self.clients[ci].last_growth {
-                if r0 == rec && mono_v >= m0 && half < h0 {
+                // (only when the record used is known, not merely one that explains the answer)
+                if single && r0 == rec && mono_v >= m0 && half < h0 {
                     self.out.violate(&["C05"], "half_width_shrank", "shrink".into(), format!("same record, monotonic reading {m0} -> {mono_v}, half-width {h0} -> {half}"));
                 }
             }
@@ -731,7 +754,10 @@ impl BState {
                     v.push((vec!["C05"], "earliest_after_latest", "order".into(), format!("earliest {earliest} > latest {latest}")));
                 }
                 let half = (latest - earliest) / 2;
-                if (half - want_half).abs() > 1 {
+                // 1 ns of truncation, plus the resolution of double-precision arithmetic once the
+                // half-width itself exceeds 2^51 ns (26 days' worth; outside "elapsed times of hours")
+                let tol = 1 + (want_half.abs() >> 51);
+                if (half - want_half).abs() > tol {
                     v.push((
                         // inside the blur window the age must be treated as zero (C14)
                         if mono < as_of { vec!["C05", "C14"] } else { vec!["C05"] },
@@ -974,10 +1000,36 @@ impl Observer for BObserver {
                 .iter()
                 .find(|(n, _)| verif_rt::ident_hash(n) == ev.a)
                 .map(|(_, k)| *k);
+                let mut reassociated = false;
                 let d = &mut s.daemons[di];
+                // an iteration that queried chronyd more than once: a measurement message belongs
+                // to the latest query of this iteration that was answered with a tracking report
+                let n = d.polls.len();
+                if kind == Some(MsgKind::Data) && n > 0 && !d.polls[n - 1].info.as_ref().map(|i| i.tracking.is_some()).unwrap_or(false) {
+                    let mut j = n - 1;
+                    while j > 0 && d.polls[j - 1].send_at.is_none() && d.polls[j - 1].msg.is_none() {
+                        j -= 1;
+                        if d.polls[j].info.as_ref().map(|i| i.tracking.is_some()).unwrap_or(false) {
+                            let e = d.polls[j].clone();
+                            let last = &mut d.polls[n - 1];
+                            last.as_of = e.as_of;
+                            last.q_at = e.q_at;
+                            last.r_at = e.r_at;
+                            last.info = e.info;
+                            if last.a_hi.is_none() {
+                                last.a_hi = e.a_hi;
+                            }
+                            reassociated = true;
+                            break;
+                        }
+                    }
+                }
                 if let Some(p) = d.polls.last_mut() {
                     p.msg = kind;
                     p.msg_at = now;
+                }
+                if reassociated {
+                    s.out.probe("probe.message_from_an_earlier_query_of_the_iteration");
                 }
             }
             EvKind::Send => {
